@@ -59,7 +59,9 @@ def phi_1D(xx, nu=1.0, theta0=1.0, gamma=0, h=0.5, theta=None, beta=1, deme_ids=
     # maximum of -Q, which is -2*gamma.
     Qadjust = 0
     # For negative gamma, the maximum of -Q is -2*gamma.
-    if gamma < 0 and numpy.isinf(numpy.exp(-2*gamma)):
+    # (The adjustment is applied somewhat before exp(-2*gamma) itself
+    # overflows, because the quadrature sums overflow earlier.)
+    if gamma < 0 and -2*gamma > 700:
         Qadjust = -2*gamma
 
     # For large positive gamma, the prefactor exp(Q) becomes numerically
